@@ -43,7 +43,7 @@ def has_size_prefix(I, ty):
 
 
 def run(c):
-    c.lean(MODULES, THEOREMS, sources=["TLVerif.Codec.TL2", "TLVerif.Codec.TL2Lemmas"])
+    c.lean(MODULES, THEOREMS, sources=["TLVerif.Codec.TL2", "TLVerif.Codec.TL2Lemmas", "TLVerif.Codec.TL2RoundTrip"])
     model, schemas = t2.prepare(c)
     rng = c.rng
     per = 20 if c.thorough else 4
